@@ -9,7 +9,7 @@ import (
 
 func init() {
 	register(&propDef{
-		ID: "C05", Level: "other", Run: runC05,
+		ID: "C05", Level: "other", Run: withShared(runC05, share{"C04", runC04, ruleIs("no-offers-outside-action-wait")}, share{"C12", runC12, ruleIs("wager-monotone")}),
 		Explanation: "Typestate rules the per-seat acted flags must obey for a round to close when it should: every offered action marks the actor acted on every accepted path before re-entering the chain; every in-round raise of the wager to match is followed, on every path to the return, by a reset of the other seats' flags; the raiser stays acted; the hand completes at once when one player is alive (dominates every street entry, and the seat walk); no betting round is opened with fewer than two movable players; the alive and movable counters count exactly not-folded and not-folded-with-chips over all players. Does NOT decide that a round closes within one lap and never early for every interleaving.",
 		Trusted:     commonTrusted,
 		Assumptions: []string{"alias player.state == Player.State() (see C07)", "the walk closes a round when it reaches an acted seat (RequestPlayerAction, checked here structurally)"},
@@ -48,9 +48,7 @@ func runC05(c *Ctx) {
 		c.touch(fnKey(fn))
 		s := newSumm(p, 0)
 		owner := fn
-		s.HelperInline = func(f *ssa.Function) bool {
-			return privateHelper(owner, f) && f != mover && len(findLoops(f)) == 0 && !eg.MayEmit[f]
-		}
+		s.HelperInline = bodyHelpers(owner, mover)
 		paths, _ := s.Function(fn)
 		var bad []string
 		nResume := 0
@@ -298,8 +296,12 @@ func runC05Shortcuts(c *Ctx, ea *engineAnchors, eg *EventGraph) {
 						offers = true
 					}
 				}
-				actedTrue := hasCond(ps, func(v *Val) bool { return v.K == KAtom && v.At.Op == "b" && !v.Neg && strings.HasSuffix(v.At.L, ".Acted") })
-				actedFalse := hasCond(ps, func(v *Val) bool { return v.K == KAtom && v.At.Op == "b" && v.Neg && strings.HasSuffix(v.At.L, ".Acted") })
+				actedTrue := hasCond(ps, func(v *Val) bool {
+					return v.K == KAtom && v.At.Op == "b" && !v.Neg && strings.HasSuffix(v.At.L, ".Acted")
+				})
+				actedFalse := hasCond(ps, func(v *Val) bool {
+					return v.K == KAtom && v.At.Op == "b" && v.Neg && strings.HasSuffix(v.At.L, ".Acted")
+				})
 				if offers && !actedFalse {
 					bad = append(bad, "a seat is offered actions without testing that it has not acted yet")
 				}
